@@ -212,6 +212,35 @@ def store_model(res, tier):
         raise vlib.Broken("an MtbddStore model mutant is no longer refuted")
 
 
+def apply_killer_histories():
+    """the counterexamples of the Apply model's mutants (spec/killers/apply.ndjson: operation, f, g as 8-entry tables over 3
+    variables) as histories: f and g are assembled minterm by minterm (mk + plus), then combined - twice, with another
+    operation in between, on one functor object"""
+    out = []
+    p = os.path.join(vlib.SPEC, "killers", "apply.ndjson")
+    if not os.path.exists(p):
+        return out
+    for n, k in enumerate(vlib.read_ndjson(p)):
+        steps = []
+
+        def build(h, tmp, tab):
+            steps.append(["const", h, 0])
+            for i, v in enumerate(tab):
+                if v:
+                    steps.append(["mk", tmp, [(i >> b) & 1 for b in range(3)] + [2], v, 0])
+                    steps.append(["apply2", 3, "plus", h, tmp])
+                    steps.append(["assign", h, 3])
+                    steps.append(["destroy", 3])
+                    steps.append(["destroy", tmp])
+        build(0, 2, k["f"])
+        build(1, 2, k["g"])
+        other = "max" if k["o"] != "max" else "plus"
+        steps += [["apply2", 2, other, 0, 1], ["apply2", 3, k["o"], 0, 1], ["destroy", 2], ["apply2", 2, k["o"], 1, 0], ["destroy", 3],
+                  ["apply2", 3, other, 1, 0]]
+        out.append({"op": "mtbdd", "W": W, "steps": steps, "sz": True, "reuse": True, "id": ["k", "Apply", n], "src": "killer: Apply model mutant " + k.get("mut", "")})
+    return out
+
+
 def check_C17(tier, seed, res, replay=None):
     rd = vlib.rundir("C17", tier)
     res.rule = ("seeded random histories over 4 OndriksMTBDD<int> handles and 4 variables: construction from assignments with don't-cares, constants, unary/binary/"
@@ -228,9 +257,17 @@ def check_C17(tier, seed, res, replay=None):
         c = gen_mtbdd_history(rng, rng.randint(steps // 2, steps), full=True)
         c["id"] = ["c17", i]
         cases.append(c)
+    cases += apply_killer_histories()
     res.count_cases(cases, nt)
     res.add_samples([{"steps": c["steps"][:10]} for c in cases if nt(c)][:3])
     run_mtbdd(res, rd, "c17", cases)
+    # Layer 2: the binary apply on node structures (memo keyed by node pairs, branching on the higher top variable, reduction,
+    # memo cleared per top-level call), every pair of functions of the bound; a second call on the same functor object
+    from p_ta import model_with_mutants
+    model_with_mutants(res, "Apply.tla", "Apply3v.cfg", ["NoReduce", "KeyFirstOnly", "BranchLower", "SwapSecond"] if tier == "thorough" else [], "Apply")
+    model_with_mutants(res, "Apply.tla", "Apply2.cfg", ["KeepMemo"] if tier == "thorough" else [], "Apply")
+    if tier == "thorough":
+        model_with_mutants(res, "Apply.tla", "Apply.cfg", [], "Apply")
 
 
 def check_C18(tier, seed, res, replay=None):
